@@ -6,3 +6,4 @@ import SpecsModel.Props.C01
 #print axioms SpecsModel.C01.handles_unique
 #print axioms SpecsModel.C01.no_shared_index
 #print axioms SpecsModel.C01.no_panic
+#print axioms SpecsModel.C01.world_no_shared_index
